@@ -234,7 +234,7 @@ func TestWorker(t *testing.T) {
 	for idx := cfg.Worker; idx < runs; idx += cfg.NWorkers {
 		seed := runSeed(&cfg, idx)
 		tape := core.NewTape(seed)
-		wantSample := len(sum.Samples) < 3 && (idx/cfg.NWorkers)%97 == 1
+		wantSample := len(sum.Samples) < 3 && (idx/cfg.NWorkers)%29 == 1
 		t0 := time.Now()
 		cur.idx, cur.tape = idx, tape
 		res := p.Run(t, tape, rc(idx, wantSample))
@@ -255,7 +255,7 @@ func TestWorker(t *testing.T) {
 			sum.Nontrivial++
 			shapes[core.HashString(res.ShapeKey+"|"+res.LogHash)] = true
 		}
-		if wantSample && res.Scenario != nil {
+		if wantSample && res.Scenario != nil && res.Nontrivial {
 			sum.Samples = append(sum.Samples, map[string]interface{}{"run_index": idx, "run_seed": seed, "scenario": res.Scenario, "strategy": res.Strategy, "steps": res.Steps, "class": res.Class})
 		}
 		switch {
